@@ -259,7 +259,7 @@ func genLeaf(r *rand.Rand) genProbe {
 	default:
 		c := celRules[r.Intn(len(celRules))]
 		return genProbe{
-			spec:  corev1alpha1.Probe{CEL: &corev1alpha1.ProbeCELSpec{Rule: c.rule, Message: "cel:" + c.rule}},
+			spec:  corev1alpha1.Probe{CEL: &corev1alpha1.ProbeCELSpec{Rule: c.rule, Message: pick(r, "cel:"+c.rule, "cel:"+c.rule, "", "not ready")}},
 			truth: c.truth,
 		}
 	}
